@@ -5,7 +5,8 @@ from harness.mapasm import MapAdapter
 from lib import recipe
 
 INV = ['MapCorrect', 'MapReadyWhen', 'MapCallbacksOnce', 'EmptyIsEmpty', 'Tiling', 'ImapPrefix',
-       'ImapItemExact', 'ImapuNoDupNoAlien', 'StopsComplete', 'NoEarlyStop']
+       'ImapItemExact', 'ImapuNoDupNoAlien', 'StopsComplete', 'NoEarlyStop', 'ImapComplete',
+       'MapComplete']
 PROPS = ['MapStable', 'ContinuesAfterError']
 KNOWN = [('TolChunkedImapStops', ['StopsComplete', 'ContinuesAfterError'])]
 
